@@ -1,15 +1,17 @@
 """Source of truth for MANIFEST.json (tools/mkmanifest.py turns it into JSON)."""
 
 ENGINES = [
-    {"name": "PROG", "path": "mc/prog.py, mc/proggen.py", "serves_properties": ["C01", "C05", "C06", "C14"],
+    {"name": "PROG", "path": "mc/prog.py, mc/proggen.py", "serves_properties": ["C01", "C04", "C05", "C06", "C14"],
      "kind_free_text": "bounded-exhaustive enumerator of component programs (AST + printer) executed on the real library and compared with a reference interpreter"},
     {"name": "SCHED", "path": "mc/sched.py", "serves_properties": ["C07"],
      "kind_free_text": "stateless exploration of real threads: baton scheduler, sys.settrace scheduling points from an AST scan of the working tree, cooperative locks, iterative preemption bounding, DFS sharded over first deviations"},
-    {"name": "SEQ", "path": "mc/seq.py", "serves_properties": ["C18"],
+    {"name": "ENUM", "path": "checks/c11.py, checks/c16.py, checks/c17.py, checks/c20.py", "serves_properties": ["C11", "C16", "C17", "C20"],
+     "kind_free_text": "bounded-exhaustive input enumeration (full products / all sequences to a length) executed on the real code and compared with a reference function or a stock twin (Python's call binding, importlib, a suffix/pattern predicate, a recursive union model)"},
+    {"name": "SEQ", "path": "mc/seq.py", "serves_properties": ["C16", "C18"],
      "kind_free_text": "explicit-state BFS over operation histories on the real objects, canonical-state merging, reference model per step, unmerged cross-check"},
 ]
 
-FIX_COMMITS = ["9971f7b (C01)", "a8b3a60 (C05)", "d2c67e0 (C06)", "af8a5f7 (C06)", "34517b9 (C07)", "64d9058 (C07)"]
+FIX_COMMITS = ["9971f7b (C01)", "a8b3a60 (C05)", "d2c67e0 (C06)", "af8a5f7 (C06)", "34517b9 (C07)", "64d9058 (C07)", "904ce30 (C11)", "3cabaaa (C11)", "16cad7c (C17)", "914c67b (C17)", "3644eb2 (C20)", "62e89ba (C20)", "4c86fa4 (C04)", "7c927a3 (C16)", "3b28f4c (C16)", "63b789b (C16)"]
 
 _PENDING = "check not built yet in this session (build order: DESIGN.md section 6); it will be decided by the same bounded-exhaustive technique"
 
@@ -22,6 +24,15 @@ CHECKS = {
                 "is rendered by the real library in both context_behavior modes, through the component tag, the dynamic component and Component.render(slots=...), "
                 "and output / error class / is_filled probes are compared with a denotational reference interpreter on every program.",
         "note": "bounded program size; variables scope-independent by construction (scoping is C03); slots only inside component templates; acyclic component graphs; reference interpreter encodes the statement's lexical slot resolution",
+    },
+    "C04": {
+        "engine": "PROG",
+        "design_ref": "DESIGN.md 2.1, 3/C04",
+        "technique": "bounded-exhaustive program x asset-assignment enumeration on the real renderer vs first-appearance set/sequence model",
+        "text": "Every program of the asset profile with <= N nodes x asset assignments (inline js/css, Media js/css in str/list/dict form, inherited Media, shared files, an unrendered asset-bearing class) "
+                "x page wrappers (none / head+body / explicit placeholders) x document/fragment, and all 25 asset assignments x 5 class-name pairs (incl. non-ASCII names and the same __name__ in two modules) on the programs <= 2 nodes, "
+                "is rendered by the real library through render_dependencies(), the middleware and Component.render(type=); inline JS/CSS must appear once in first-appearance order, every Media file once, nothing of unrendered classes, no marker survives, fragment JSON declares the same sets.",
+        "note": "STATIC_URL=/static/, no manifest storage; media cache cleared between cases; two live classes with one import path and get_js_data/get_css_data are excluded",
     },
     "C05": {
         "engine": "PROG",
@@ -53,6 +64,15 @@ CHECKS = {
                 "(quick k=2 on the provide-error and LRU scenarios, k=1 elsewhere; thorough k=3 / k=2); each thread's result must equal its solo result, no deadlock, no residue, LRU list/dict invariant.",
         "note": "CPython+GIL, preemption between source lines of the scheduling set only (under-approximation: every explored schedule is realisable); 2 threads; library locks become cooperative locks via a wrapper installed before import",
     },
+    "C11": {
+        "engine": "ENUM",
+        "design_ref": "DESIGN.md 2.4, 3/C11",
+        "technique": "bounded-exhaustive signature x call-sequence enumeration against Python's own call binding (differential twin)",
+        "text": "Every render() signature up to 5 parameters (positional-only / positional-or-keyword / *args / keyword-only / **kwargs, with and without defaults; 1085 signatures) is crossed with every "
+                "argument sequence up to length 4-5 over matching, duplicate, unknown, non-identifier, keyword and spread-produced keys. Each pair runs on the real tag machinery on both validation paths "
+                "(and through @template_tag + Template, and with the built-in tags' signatures); acceptance and complete bindings are compared with Python executing the literal equivalent call on the same function.",
+        "note": "integer literal values; list spread after a plain keyword accepted under either reading; **kwargs order and messages not compared; fallback path reached via a callable without __code__; thorough covers L=5 only for signatures <= 3 params",
+    },
     "C14": {
         "engine": "PROG",
         "design_ref": "DESIGN.md 2.1, 3/C14",
@@ -63,6 +83,24 @@ CHECKS = {
                 "Depth families chain(d)/nest(d) up to d=200 (quick) / 2000 (thorough).",
         "note": "html.parser trusted; attribute insertion itself happens in the external djc_core_html_parser wheel (not part of the repository)",
     },
+    "C16": {
+        "engine": "ENUM",
+        "design_ref": "DESIGN.md 2.3, 2.4, 3/C16",
+        "technique": "bounded-exhaustive class-hierarchy x access-history enumeration on real classes (BFS to fixpoint over reads) vs recursive union model",
+        "text": "All component hierarchies up to 4 classes over the full Media / extend alphabet (cut alphabets up to 6) are built as fresh real classes; all (first-)access orders of .media are read and for n<=3 a BFS to a "
+                "fixpoint covers every history of .media/.template/.js/.css/*_file reads on classes and instances. Every read is compared with a recursive union model, with order-independence across access orders, "
+                "with subsequence-consistency of declared lists and with the nearest-definer pair rule.",
+        "note": "one directory per hierarchy, plain-string paths; multiple-inheritance classes without own Media accepted under either reading; n=5,6 restricted to single-sink shapes; history merging cross-checked by an unmerged depth-2 search",
+    },
+    "C17": {
+        "engine": "ENUM",
+        "design_ref": "DESIGN.md 2.4, 3/C17",
+        "technique": "bounded-exhaustive file-name x allowed/forbidden-configuration x lookup-path product on the real finder vs suffix/pattern predicate",
+        "text": "Every file of a tree holding the full stem x look-alike-extension x depth product is queried through list(), find() under three in-root spellings, find(all=True) and ~100 traversal spellings, "
+                "under every default / empty / singleton / pair configuration of 19 allowed/forbidden entries (metacharacter suffix strings, compiled patterns), three directory layouts and three setting spellings, "
+                "and compared with the reference predicate; six configurations are repeated end-to-end through collectstatic and the dev-server view.",
+        "note": "POSIX, no symlinks or control characters; patterns judged on the path relative to the component dir; dot-less suffixes only 'no crash' plus files on which both readings agree; Django 5.1 staticfiles",
+    },
     "C18": {
         "engine": "SEQ",
         "design_ref": "DESIGN.md 2.3, 3/C18",
@@ -72,6 +110,15 @@ CHECKS = {
                 "cached_template() is searched the same way for cache sizes 0,1,2,128 and component renders for all sequences <= 4.",
         "note": "single-threaded; alphabet of 4 keys/2 values (code is key/value agnostic); CPython 3.12 / Django 5.1 as installed",
     },
+}
+
+CHECKS["C20"] = {
+    "engine": "ENUM",
+    "design_ref": "DESIGN.md 2.4, 3/C20",
+    "technique": "bounded-exhaustive path product x directory-configuration product on get_component_files/autodiscover vs reference filter and importlib",
+    "text": "All paths over the part alphabet (depth <= 2 quick / <= 3 thorough) x 16 file names plus file-like directories, under 540 configurations (COMPONENTS.dirs forms, STATICFILES_DIRS forms, app dirs of generated apps, BASE_DIR as str/Path) "
+            "and 7 suffixes are compared as multisets with the statement's filter; dotted paths of dot-free .py entries are validated with importlib.util.find_spec; autodiscover() is run on three import-clean layouts with an execution log.",
+    "note": "component dirs disjoint and below BASE_DIR; dotted names membership-only; no symlinks; CPython 3.12",
 }
 
 NOT_APPLICABLE = {("C%02d" % i): _PENDING for i in range(1, 21)}
